@@ -34,7 +34,9 @@ def contracts():
         ensures=[f"implies(kind == 'N', tainted_calls('cookieargs', {FORBIDDEN}) == 0)",
                  "implies(kind == 'N', logged('_unexpanded_template') + logged('_unexpanded_arg') + "
                  "logged('_unexpanded_link') + logged('_unexpanded_extlink') == 0)",
-                 "implies(kind == 'N', logged('nowiki_quote') <= 1)"]))
+                 "implies(kind == 'N', logged('nowiki_quote') <= 1)",
+                 # a non-empty body is quoted exactly once here, and what is returned is that quoted text
+                 "implies(kind == 'N', result == '<nowiki/>' or logged('nowiki_quote') == 1)"]))
     # parser.magic_fn: on the N branch the body is quoted and emitted as text, never tokenised again
     cs.append(Contract(
         target="parser:magic_fn", prop="C15", mode="frame", params={"ctx": "ctx", "token": "str"},
@@ -43,6 +45,13 @@ def contracts():
         ensures=["implies(kind == 'N', tainted_calls('cookieargs', 'process_text', '_encode', 'expand') == 0)",
                  "implies(kind == 'N', logged('nowiki_quote') == 1)",
                  "implies(kind == 'N', logged('process_text') == 0)"]))
+    # preprocess_text._nowiki_sub_fn: the body of a nowiki pair is stored in its N cookie as written (quoting happens
+    # exactly once, where the cookie is emitted: the two contracts above), flagged as nowiki
+    cs.append(Contract(
+        target="core:Wtp.preprocess_text._nowiki_sub_fn", prop="C15", mode="frame", params={"m": "opq"},
+        track_log=True, log_names=["nowiki_quote", "_save_value", "group"],
+        ensures=["logged('nowiki_quote') == 0", "logged('_save_value') == 1", "call_arg('_save_value', 0, 0) == 'N'",
+                 "call_arg('_save_value', 0, 2) == True", "logged('group') == 1", "call_arg('group', 0, 0) == 1"]))
     # nowiki_quote: total (every match of the alternation regex is a key of the map: F obligation in checks/c15.py)
     return cs
 
